@@ -457,6 +457,21 @@ Proof.
   split; [vm_compute; reflexivity|]. intros (_ & _ & _ & H & _). vm_compute in H. discriminate.
 Qed.
 
+(* ... and the window that counts is the EFFECTIVE one: sigma_space = 2/3 asks for int(3) = 3 pixels (odd), a raster
+   of 2 rows clips it to 2 (bilateral.py: win_width = min(rows, cols, int(3 sigma_space + 1))): the only filtered row
+   is row 1, of the raster and of its flipped copy alike, so the flip is not respected (finding
+   bilateral_window_clipped_to_even_size, replayed on the real code by the check) *)
+Definition clipped_F : frame pix :=
+  mkFrame 2 3 (fun r c => mkPix 0 0 0 0 [] [] (Some (inject_Z r)) (Some 0%Q) 0 0).
+Theorem C13_vflip_clipped_window_refuted :
+  Qround.Qfloor (3 * (2 # 3) + 1) = 3 /\ Filters.win_width 2 3 (2 # 3) = 2 /\
+  ~ pix_eqv (bilateral_step 963 50 (2 # 3) (fun _ _ => 1%Q) (fun _ => 1%Q) (vflip clipped_F) 1 1)
+            (bilateral_step 963 50 (2 # 3) (fun _ _ => 1%Q) (fun _ => 1%Q) clipped_F (frow clipped_F 1) 1).
+Proof.
+  split; [vm_compute; reflexivity|]. split; [vm_compute; reflexivity|].
+  intros (_ & _ & _ & H & _). vm_compute in H. discriminate.
+Qed.
+
 (* ---------------------------------------------------------------- non-vacuity *)
 
 (* the environment of the tree under test: regenerated flag sites and constants, block sizes *)
@@ -590,3 +605,4 @@ Print Assumptions C13_pipeline_vflip.
 Print Assumptions C13_pipeline_flipped.
 Print Assumptions C13_vflip_side_conditions.
 Print Assumptions C13_vflip_even_window_refuted.
+Print Assumptions C13_vflip_clipped_window_refuted.
